@@ -158,6 +158,7 @@ PROPS["C14"] = {
 PROPS["C19"] = {
     "title": "Command-line values mean what the manual says",
     "units": [{"name": "flags", "pkg": "main", "run": "^TestC19", "scale_thorough": 10},
+              {"name": "cli", "pkg": "main", "run": "^TestC14Cli", "env": {"VERIF_AS": "C19"}, "shards_quick": 2, "shards_thorough": 8},
               {"name": "resolver", "pkg": "resolver", "run": "^TestC19", "shards_quick": 1, "shards_thorough": 4}],
     "rule": "rapid constructs flag values from an abstract meaning: -rate N[/D] with N in [1,2^62], D absent / bare "
             "unit / multiple / compound, the words 0 and infinity, malformed values; repeated -header lines with "
